@@ -11,7 +11,11 @@ state:
 The op "set-coords" re-sets the coordinates of the existing object through a model / affine-chart setter (every class with
 auxiliary data, integer-typed polygons included): the derived data must follow, objects derived earlier must not move.
 The op "queries" calls every read-only query and checks after each single call that the object's rows, the rows of
-every object passed as an argument and the arrays the caller supplied are projectively what they were.
+every object passed as an argument and the arrays the caller supplied are projectively what they were -- and, for tangent
+vectors, that the LENGTH of the vector (Minkowski norm of the vector row relative to the point row; the two rows are one
+unit) is what it was.  The coordinate arrays the queries RETURN are the caller's: a later query, a later operation on the
+object (item assignment, re-set coordinates) must not change them, and writing into them must not move the object
+(homogeneous coordinates excepted: projective_coords is documented as the accessor of the stored array).
 """
 import hashlib
 import itertools
@@ -24,6 +28,7 @@ from mc import lattice
 from mc.oracle import hyp
 from mc.oracle import shapes as S
 from mc.oracle.derived import edges_of, ideal_endpoints, tangent_aux, rows_err, pair_err_unordered, canon_rows
+from mc.oracle.derived import mink as mink_rows
 
 CLASSES = ["H.Polygon", "H.Segment", "H.TangentVector", "P.Polygon"]
 TOL = 1e-8
@@ -176,6 +181,18 @@ def check_state(cls, obj, model, after):
             out.append(V("aux-stale/direction-reversed/%s/%s" % (after, cls),
                          "the stored (point, vector) pair has the opposite relative sign to the expected tangent vector: the direction is reversed\n"
                          "point rows\n%r\nvector rows\n%r\nexpected pair\n%r" % (obj.proj_data[..., 0, :], obj.aux_data[..., 1, :], ora)))
+        else:
+            # length: the derived vector against what is recomputed from the primary rows, and the primary rows against the model
+            own = oracle_aux(cls, np.array(obj.proj_data))
+            L_aux, L_own, L_model = obj_length2(obj), tangent_length2(own[..., 0, :], own[..., 1, :]), tangent_length2(ora[..., 0, :], ora[..., 1, :])
+            if length_differs(L_aux, L_own):
+                out.append(V("aux-stale/length/%s/%s" % (after, cls),
+                             "the derived vector has squared length %r (relative to the base point), the vector recomputed from the object's own primary rows %r\n"
+                             "aux_data\n%r\nproj_data\n%r" % (np.asarray(L_aux).tolist(), np.asarray(L_own).tolist(), obj.aux_data, obj.proj_data)))
+            elif length_differs(L_own, L_model):
+                out.append(V("state/primary-length/%s/%s" % (after, cls),
+                             "the primary rows describe a tangent vector of squared length %r, expected %r (point and vector row are ONE unit: they were rescaled "
+                             "by different factors)\nproj_data\n%r\nmodel\n%r" % (np.asarray(L_own).tolist(), np.asarray(L_model).tolist(), obj.proj_data, model)))
     return out
 
 
@@ -188,22 +205,43 @@ def tangent_sign_flip(point, vector, ref_point, ref_vector):
     return bool(np.any(sp * sv < 0))
 
 
+def tangent_length2(point, vector):
+    """<v,v> / |<p,p>| per unit: the squared Minkowski length of the vector of a tangent vector, measured against its
+    base point.  Row-projective comparisons cannot see it (a tangent vector of length 5 and the unit one have the same
+    rows up to scale), but it is invariant under rescaling the WHOLE unit (point row and vector row by one common
+    non-zero factor), which is all the freedom the homogeneous representation has: a tangent vector of length 5 is a
+    different object from the unit one in the same direction (normalized() exists to go from one to the other)."""
+    with np.errstate(all="ignore"):
+        return np.real(mink_rows(vector, vector)) / np.abs(mink_rows(point, point))
+
+
+def length_differs(a, b):
+    a, b = np.asarray(a, dtype=float), np.asarray(b, dtype=float)
+    return a.shape != b.shape or not bool(np.all(np.abs(a - b) <= 1e-8 * (1.0 + np.abs(b))))
+
+
+def obj_length2(o):
+    """Length observation of a library TangentVector: its derived (projected) vector row against its primary point row."""
+    return tangent_length2(np.asarray(o.proj_data)[..., 0, :], np.asarray(o.aux_data)[..., 1, :])
+
+
 class Watch:
-    """Snapshots of objects and raw arrays that must stay projectively fixed."""
+    """Snapshots of objects and raw arrays that must stay projectively fixed (tangent vectors: and keep their length)."""
 
     def __init__(self):
         self.items = []
 
     def obj(self, name, o):
-        self.items.append((name, o, np.array(o.proj_data), None if o.aux_data is None else np.array(o.aux_data)))
+        L0 = obj_length2(o) if (type(o).__name__ == "TangentVector" and o.aux_data is not None) else None
+        self.items.append((name, o, np.array(o.proj_data), None if o.aux_data is None else np.array(o.aux_data), L0))
         return o
 
     def arr(self, name, a):
-        self.items.append((name, a, np.array(a), "array"))
+        self.items.append((name, a, np.array(a), "array", None))
         return a
 
     def check(self, cls, query, out):
-        for name, o, p0, a0 in self.items:
+        for name, o, p0, a0, L0 in self.items:
             if isinstance(a0, str):
                 if np.shape(o) != p0.shape or rows_err(o, p0) > TOL:
                     out.append(V("query-moved/%s/%s/%s" % (query, name, cls), "%s changed the caller's array %s:\n%r\nwas\n%r" % (query, name, o, p0)))
@@ -216,6 +254,15 @@ class Watch:
                     tangent_sign_flip(o.proj_data[..., 0, :], o.aux_data[..., 1, :], p0[..., 0, :], a0[..., 1, :]):
                 out.append(V("query-moved/%s/%s-direction-reversed/%s" % (query, name, cls),
                              "%s reversed the direction of the tangent vector %s (relative sign of point and vector rows)" % (query, name)))
+            elif L0 is not None and length_differs(obj_length2(o), L0):
+                out.append(V("query-moved/%s/%s-length/%s" % (query, name, cls),
+                             "%s changed the length of the tangent vector %s: <v,v>/|<p,p>| was %r, is now %r (vector rows were\n%r\nare now\n%r)" % (
+                                 query, name, np.asarray(L0).tolist(), np.asarray(obj_length2(o)).tolist(), a0[..., 1, :], o.aux_data[..., 1, :])))
+
+
+# queries that are documented to hand out the stored homogeneous rows themselves (get_end_pair: "a pair of ndarrays with
+# projective coordinates"; point / vector of a tangent vector are properties of the stored arrays)
+RAW_ROW_QUERIES = ("get_end_pair", "point-vector")
 
 
 def run_queries(cls, obj, model, seed, nxt, root_array, cx=False):
@@ -291,6 +338,7 @@ def run_queries(cls, obj, model, seed, nxt, root_array, cx=False):
     w = Watch()
     calls = build(obj, w)
     n = 0
+    held = []          # (query, array the query returned, its content): the caller keeps what he was given
     with warnings.catch_warnings():
         warnings.simplefilter("ignore")      # complex dtype: the library casts with a ComplexWarning; not our subject
         for qi, (name, f) in enumerate(calls):
@@ -305,6 +353,14 @@ def run_queries(cls, obj, model, seed, nxt, root_array, cx=False):
             got = flatten_result(f())
             n += 2
             w.check(cls, name, out)
+            # coordinate arrays obtained from earlier queries are values: this query must not have rewritten them
+            for hname, harr, hsnap in held:
+                if not out and not np.array_equal(harr, hsnap, equal_nan=True):
+                    out.append(V("query-result-changed/%s/%s" % (hname, cls),
+                                 "the array returned by %s was rewritten by the later query %s:\n%r\nwas\n%r" % (hname, name, harr, hsnap)))
+            if "projective" not in name and name not in RAW_ROW_QUERIES:
+                held += [(name, x, np.array(x)) for kind, x in got
+                         if kind == "num" and isinstance(x, np.ndarray) and x.ndim >= 1 and x.dtype.kind in "fc"]
             # (point, vector) of a tangent vector are raw representatives: queries may rescale the derived rows in place
             # (allowed), so their numerical values are representation-dependent; Watch.check covers them projectively
             if not out and name != "point-vector" and not same_result(got, want, name):
@@ -312,7 +368,21 @@ def run_queries(cls, obj, model, seed, nxt, root_array, cx=False):
                              "%s on the object reached by this history differs from the same query on a fresh object with the same primary data:\n%r\nfresh\n%r" % (name, got, want)))
             if out:
                 break
-    return out, n
+        # ... and the arrays are the caller's to write into: doing so must not move the object (nor the other watched objects / arrays)
+        for hname, harr, hsnap in held:
+            if out:
+                break
+            if not harr.flags.writeable:
+                continue
+            harr[...] = (0.37 * np.arange(1, harr.size + 1).reshape(harr.shape) + 0.11).astype(harr.dtype)
+            moved = []
+            w.check(cls, hname, moved)
+            for x in moved:
+                x["key"] = x["key"].replace("query-moved/", "query-result-aliased/", 1)
+                x["msg"] = "writing into the array returned by %s: %s" % (hname, x["msg"])
+            out += moved[:1]
+    held = [(hname, harr, np.array(harr)) for hname, harr, hsnap in held]
+    return out, n, held
 
 
 def flatten_result(r):
@@ -399,8 +469,9 @@ SETTERS = {
     # chart 0) / poincare_coords / halfspace_coords / hyperboloid_coords, all of which end in set()
     "H.Polygon": ["projective", "hyperboloid", "klein", "poincare", "halfspace"],
     "H.Segment": ["projective", "hyperboloid", "klein", "poincare", "halfspace"],
-    # a (point, vector) pair has no affine / conformal coordinates: only the two raw R^(n,1) setters
-    "H.TangentVector": ["projective", "hyperboloid"],
+    # a (point, vector) pair has no affine / conformal / hyperboloid coordinates (hyperboloid_coords normalises the two rows
+    # separately, which is not an operation on tangent vectors): only the raw projective setter
+    "H.TangentVector": ["projective"],
     # ideal endpoints are lightlike only up to rounding: the conformal models (sqrt(1 - |x|^2)) are left out
     "H.Segment/ideal": ["projective", "klein"],
     "P.Polygon": ["projective", "affine0", "affine1", "affine2"],
@@ -452,7 +523,8 @@ def case_hist(hist):
     last = "construct"
     handed = [("constructor-array", root_array, root_array.copy())]
     retained = []          # (role, object, its model): objects an operation was applied to / that were passed in
-    for op in ops:
+    results = []           # (position of the "queries" op, query, array it returned, its content then)
+    for last_i, op in enumerate(ops):
         name = op[0]
         last = name if name != "set-coords" else "set-coords-%s" % op[1]
         t += 1
@@ -563,9 +635,10 @@ def case_hist(hist):
             # `retained`: a later item assignment into the result must not move it)
             obj = obj.astype(np.asarray(obj.proj_data).dtype)
         elif name == "queries":
-            qv, n = run_queries(cls, obj, model, seed, nxt, root_array, cx)
+            qv, n, got_arrays = run_queries(cls, obj, model, seed, nxt, root_array, cx)
             v += qv
             t += n
+            results += [(last_i, a, b, c) for (a, b, c) in got_arrays]
         else:
             raise ValueError(name)
         if v:
@@ -582,6 +655,15 @@ def case_hist(hist):
                 x["msg"] = "%s, after the later op %r: %s" % (role, last, x["msg"])
                 v.append(x)
             if v:
+                break
+    if not v:
+        # coordinate arrays handed out by queries earlier in the history still hold what they held (whatever was
+        # done to the object since: item assignment, re-set coordinates, transformations, further queries)
+        for qi, qname, arr, snap in results:
+            if qi < len(ops) - 1 and not np.array_equal(arr, snap, equal_nan=True):
+                v.append(V("query-result-changed-later/%s/%s/%s" % (qname, last, cls),
+                           "the array returned by %s (op %d of the history) was rewritten by the later operations %r:\n%r\nwas\n%r" % (
+                               qname, qi + 1, ops[qi + 1:], arr, snap)))
                 break
     if not v:
         for nm, arr, snap in handed:
@@ -641,10 +723,16 @@ def run(ctx):
                 "representative of the real object); invariants evaluated in every state; non-trivial = at least one op")
     ctx.assume("objects live in H^2 / RP^2 with generic float coordinates (segments and polygon edges avoid the origin and the "
                "half-space point at infinity only generically; no value of a query is judged here, only what it leaves behind)")
-    ctx.assume("in-place rescaling of rows by a query is allowed (property wording): all comparisons are row-projective")
+    ctx.assume("in-place rescaling of rows by a query is allowed (property wording): all comparisons are row-projective -- except that the two rows of a "
+               "tangent vector are ONE unit whose only freedom is a common factor: <v,v>/|<p,p>| (derived vector row against primary point row) is "
+               "compared before and after every query, with the recomputation from the primary rows and with the model in every state, to 1e-8 relative")
+    ctx.assume("arrays RETURNED by coordinate queries belong to the caller: unchanged (bitwise) by later queries and later operations of the history, "
+               "and writing into them does not move any watched object; excepted are the homogeneous coordinates (queries with 'projective' in "
+               "their name: projective_coords is documented as the wrapper of the stored array; get_end_pair() returns 'ndarrays with projective "
+               "coordinates') and non-float results")
     ctx.assume("the order in which a Segment stores its two ideal endpoints is not demanded")
-    ctx.assume("coordinate setters: polygons and segments in all five models, tangent vectors through the two raw R^(n,1) setters only (a (point, vector) "
-               "pair has no affine / conformal coordinates), segments with ideal endpoints through projective / Klein only, projective polygons through "
+    ctx.assume("coordinate setters: polygons and segments in all five models, tangent vectors through the raw projective setter only (a (point, vector) "
+               "pair has no affine / conformal / hyperboloid coordinates), segments with ideal endpoints through projective / Klein only, projective polygons through "
                "projective_coords and the three affine charts; on an integer-typed object either dtype semantic (replace the array / convert the new "
                "coordinates) is accepted for the primary data, the derived data must agree with whichever it is; states reached through the Klein, "
                "Poincare and half-space setters from the same data coincide and are merged")
